@@ -3,6 +3,7 @@ package main
 import (
 	"fmt"
 	"io"
+	"io/ioutil"
 	"os"
 	"strings"
 	"time"
@@ -19,7 +20,12 @@ type c18Input struct {
 	Text   string
 	File   string // non-empty: ParseFile on this path
 	FailAt int    // >= 0: the reader fails at this offset
+	// EmptyName: ParseFile("")
+	EmptyName bool
 }
+
+// isFile: the input is a path given to ParseFile (possibly the empty path).
+func (in c18Input) isFile() bool { return in.File != "" || in.EmptyName }
 
 func c18Inputs(tier string) []c18Input {
 	good := []string{"a:\n  x: 1\n", "b:\n  y: 2\n  z: 3\n", "c:\n"}
@@ -59,11 +65,21 @@ func c18Inputs(tier string) []c18Input {
 	if exe, err := os.Executable(); err == nil {
 		ins = append(ins, c18Input{Name: "path-through-a-regular-file", File: exe + "/log.yaml", FailAt: -1})
 	}
-	ins = append(ins, c18Input{Name: "name-too-long", File: os.TempDir() + "/" + strings.Repeat("n", 300) + ".yaml", FailAt: -1})
-	loopDir := os.Getenv("VERIF_TMP") // the worker's own directory, removed with the run
-	if loopDir == "" {
-		loopDir = os.TempDir()
+	// spellings of a name that a lexical clean-up would change: the operating system resolves them component by component
+	if base := loopDirFor(); base != "" {
+		os.MkdirAll(base+"/dir", 0o755)
+		os.MkdirAll(base+"/other/sub", 0o755)
+		ioutil.WriteFile(base+"/dir/log.yaml", []byte("a:\n  x: 1\nb:\n  y: 2\n"), 0o644)
+		ioutil.WriteFile(base+"/other/log.yaml", []byte("other:\n  z: 3\n"), 0o644)
+		os.Symlink(base+"/other/sub", base+"/dir/link")
+		ins = append(ins, c18Input{Name: "dotdot-after-a-missing-directory", File: base + "/dir/missing/../log.yaml", FailAt: -1})
+		ins = append(ins, c18Input{Name: "separator-after-a-regular-file", File: base + "/dir/log.yaml/", FailAt: -1})
+		ins = append(ins, c18Input{Name: "dotdot-after-a-symbolic-link-to-a-directory", File: base + "/dir/link/../log.yaml", FailAt: -1})
+		ins = append(ins, c18Input{Name: "doubled-separators-and-dots", File: base + "/./dir//./log.yaml", FailAt: -1})
+		ins = append(ins, c18Input{Name: "empty-name", EmptyName: true, FailAt: -1})
 	}
+	ins = append(ins, c18Input{Name: "name-too-long", File: os.TempDir() + "/" + strings.Repeat("n", 300) + ".yaml", FailAt: -1})
+	loopDir := loopDirFor()
 	loop := fmt.Sprintf("%s/verif-c18-loop-%d", loopDir, os.Getpid())
 	os.Symlink(loop, loop)
 	if _, err := os.Open(loop); err != nil && !os.IsNotExist(err) {
@@ -110,7 +126,7 @@ func c18Reference(in c18Input) (events []string, finalErr string) {
 		return false, nil
 	}
 	var err error
-	if in.File != "" {
+	if in.isFile() {
 		err = parser.ParseFileCallback(in.File, parser.NewDefaultConfig(), cb)
 	} else {
 		err = parser.ParseStreamCallback(in.reader(), parser.NewDefaultConfig(), cb)
@@ -138,7 +154,7 @@ func c18RunModel(x *Exec, in c18Input, policy int) c18Obs {
 	s.NameChan(p.Errors, "Errors")
 	s.NameChan(p.Done, "Done")
 	s.Go("producer", func() {
-		if in.File != "" {
+		if in.isFile() {
 			p.ParseFile(in.File)
 		} else {
 			p.ParseStream(in.reader())
@@ -191,7 +207,7 @@ func c18RunReal(in c18Input, policy int, limit time.Duration) (events []string, 
 	verifshim.SendHook = nil
 	p := parser.NewParser(parser.NewDefaultConfig())
 	go func() {
-		if in.File != "" {
+		if in.isFile() {
 			p.ParseFile(in.File)
 		} else {
 			p.ParseStream(in.reader())
@@ -265,7 +281,7 @@ func checkC18(w *Worker) {
 		ctx := fmt.Sprintf("input %s (%q%s), consumer %s, schedule %v\nconsumer saw: %v\ncallback parser: records %v, error %q", in.Name, in.Text, in.File, polName, o.Trace, o.Events, refEvents, refErr)
 		if !o.ConsumerDone {
 			kind := "consumer-never-terminates"
-			if in.File != "" {
+			if in.isFile() {
 				kind = "consumer-never-terminates|unreadable-file"
 			}
 			x.Violate("C18|"+polName+"|"+kind, ctx+"\nthe consumer does not terminate: "+strings.Join(o.Parked, "; "), rep)
@@ -336,4 +352,13 @@ func checkC18(w *Worker) {
 		}
 		w.Notes["model_validation_free_runs_on_real_channels"] += validated
 	}
+}
+
+// loopDirFor: the worker's own directory (removed with the run), or the system one.
+func loopDirFor() string {
+	d := os.Getenv("VERIF_TMP")
+	if d == "" {
+		d = os.TempDir()
+	}
+	return d + fmt.Sprintf("/c18-%d", os.Getpid())
 }
